@@ -114,7 +114,23 @@ pub fn run(_routine: &str, t: &mut Toks) -> String {
         "f64" => {
             let a: Parent<f64> = Parent::parse(t);
             t.bar();
-            let b: Parent<f64> = Parent::parse(t);
+            let b: Parent<f64> = match Second::<f64>::parse(t) {
+                Second::Own(p) => p,
+                Second::Alias(l) => {
+                    // both operands are views into ONE allocation (they share elements, possibly the first
+                    // and the last one, with different strides)
+                    let vb = view_of(&a.arr, &l);
+                    let va = a.view();
+                    let mut r = vec![format!("alias|{}", bundle_f64(&va, &vb))];
+                    if a.layout.pshape.len() == 2 {
+                        r.push(format!(
+                            "aliasstatic|{}",
+                            bundle_f64(&va.clone().into_dimensionality::<Ix2>().unwrap(), &vb.clone().into_dimensionality::<Ix2>().unwrap())
+                        ));
+                    }
+                    return format!("OK {} # {}", r.len(), r.join(" # "));
+                }
+            };
             let nd = a.layout.pshape.len();
             let mut r = variants!(bundle_f64, a, b, nd);
             r.push(format!("narrow|{}", bundle_f64(&a.owned_sliced(), &b.owned_sliced())));
@@ -123,7 +139,21 @@ pub fn run(_routine: &str, t: &mut Toks) -> String {
         "i64" => {
             let a: Parent<i64> = Parent::parse(t);
             t.bar();
-            let b: Parent<i64> = Parent::parse(t);
+            let b: Parent<i64> = match Second::<i64>::parse(t) {
+                Second::Own(p) => p,
+                Second::Alias(l) => {
+                    let vb = view_of(&a.arr, &l);
+                    let va = a.view();
+                    let mut r = vec![format!("alias|{}", bundle_i64(&va, &vb))];
+                    if a.layout.pshape.len() == 2 {
+                        r.push(format!(
+                            "aliasstatic|{}",
+                            bundle_i64(&va.clone().into_dimensionality::<Ix2>().unwrap(), &vb.clone().into_dimensionality::<Ix2>().unwrap())
+                        ));
+                    }
+                    return format!("OK {} # {}", r.len(), r.join(" # "));
+                }
+            };
             let nd = a.layout.pshape.len();
             let mut r = variants!(bundle_i64, a, b, nd);
             // an owned array narrowed inside its parent allocation (slice_move semantics), and the
